@@ -5,8 +5,8 @@ From Grule Require Import Base SitesGen.
 Open Scope string_scope.
 
 Lemma sites_memo_ok : sites_memo = [
-  ("ast/BuiltInFunctions.Changed", "call gf WorkingMemory Reset", 1%nat);
-  ("ast/BuiltInFunctions.Forget", "call gf WorkingMemory Reset", 1%nat);
+  ("ast/BuiltInFunctions.Changed", "call .WorkingMemory Reset/1", 1%nat);
+  ("ast/BuiltInFunctions.Forget", "call .WorkingMemory Reset/1", 1%nat);
   ("ast/Expression.Evaluate", "Evaluated=true", 5%nat);
   ("ast/ExpressionAtom.Evaluate", "Evaluated=true", 5%nat);
   ("ast/Variable.Assign", "call ResetVariable", 2%nat);
@@ -16,7 +16,7 @@ Lemma sites_memo_ok : sites_memo = [
   ("ast/WorkingMemory.Reset", "range expressionSnapshotMap", 1%nat);
   ("ast/WorkingMemory.Reset", "Evaluated=false", 2%nat);
   ("ast/WorkingMemory.Reset", "range expressionAtomSnapshotMap", 1%nat);
-  ("ast/WorkingMemory.ResetVariable", "range arr", 2%nat);
+  ("ast/WorkingMemory.ResetVariable", "range local", 2%nat);
   ("ast/WorkingMemory.ResetVariable", "Evaluated=false", 2%nat);
   ("ast/WorkingMemory.ResetElement", "call ResetVariable", 2%nat);
   ("ast/WorkingMemory.ResetElement", "range variableSnapshotMap", 1%nat);
@@ -24,7 +24,7 @@ Lemma sites_memo_ok : sites_memo = [
   ("ast/WorkingMemory.ResetAll", "Evaluated=false", 2%nat);
   ("ast/WorkingMemory.ResetAll", "range expressionAtomSnapshotMap", 1%nat);
   ("engine/GruleEngine.ExecuteWithContext", "call ResetAll", 1%nat);
-  ("engine/GruleEngine.ExecuteWithContext", "call knowledge Reset", 1%nat);
+  ("engine/GruleEngine.ExecuteWithContext", "call Reset/0", 1%nat);
   ("engine/GruleEngine.FetchMatchingRules", "call ResetAll", 1%nat);
-  ("engine/GruleEngine.FetchMatchingRules", "call knowledge Reset", 1%nat)].
+  ("engine/GruleEngine.FetchMatchingRules", "call Reset/0", 1%nat)].
 Proof. reflexivity. Qed.
